@@ -51,10 +51,10 @@ CHECKS = {
     ),
     "C08": dict(
         level="exploration",
-        text="Hmac<D> for all 18 legacy digest objects under every delivery: key-length classes {0,1,B-1,B,B+1,2B+1,random} x message fragmentation around the digest's block (enumerated shapes first, then random) x result/raw_result into a dirty buffer, compared with H((K'^opad)||H((K'^ipad)||m)) composed in the harness from the library's ONE-CALL hash and the block size written down from the standards; Digest::block_size, output_bytes and Hmac::output_bytes are compared with the specified sizes. 1M runs quick, 80M thorough.",
+        text="Hmac<D> for all 18 legacy digest objects under every delivery: key-length classes {0,1,B-1,B,B+1,2B+1,random} x message fragmentation around the digest's block (enumerated shapes first, then random) x result/raw_result into a dirty buffer, compared with H((K'^opad)||H((K'^ipad)||m)) composed in the harness with H = the STANDARD digest (independent implementations of SHA-1, SHA-2, SHA-3, Keccak, RIPEMD-160, BLAKE2b/2s in model::digests, unit-tested against published vectors and lengths 0..300 of every variant) and the block size written down from the standards; Digest::block_size, output_bytes and Hmac::output_bytes are compared with the specified sizes. 1M runs quick, 80M thorough.",
         ref="DESIGN.md §4.7",
-        note="H is the library's one-call hashing function on purpose: a wrong hash blames C01, a wrong block size, pad constant, key expansion or buffering blames C08.",
-        technique=TECH + "; oracle = RFC 2104 composition over the one-call hash",
+        note="H is an independent implementation of the standard digest, so a digest that deviates from its standard at a length HMAC reaches (e.g. a padding slip at block-9..block+1) is reported too; the violation text says whether the library's own one-call hash explains the tag (digest deviates) or not (HMAC construction deviates).",
+        technique=TECH + "; oracle = RFC 2104 composition over independent standard digests",
     ),
     "C09": dict(
         level="exploration",
@@ -67,7 +67,7 @@ CHECKS = {
         level="fault_enumeration",
         text="Signer -> hostile channel -> verifier, plus a Byzantine sender. For every sampled honest (seed, message) the complete catalogue is enumerated: untouched (must accept); all 512 signature bit flips, all 256 public-key bit flips, every/sampled message bit, truncate/extend, S+kL for k=1..15, another signer's key, another message's signature (must reject: an accepted one would be a forgery). Adversarial triples are judged by an INDEPENDENT Ed25519 model written from RFC 8032 on plain 256-bit integers (model::ed25519; unit-tested against RFC 8032 test vectors, base-point order and torsion orders): the honest triple itself, random (key, signature) pairs, canonical non-point keys, mixed-order keys A+T (T of order 2/4/8) with a signature produced by the real signer over those key bytes (valid iff the torsion part cancels), boundary values of S (0, 1, L-1, L, L+1, 2^252, ...), special encodings of R (the 8 torsion points, non-canonical identity encodings, random), crafted equations with S from the boundary family around L / 2^252 / 2L / 8L, honest signatures made from an UNCLAMPED extended secret (signature_extended + extended_to_public, 6 scalar classes; must verify and must satisfy the model), and the small-order-key forgeries with canonical and non-canonical R whose verdict is also known in closed form. Where the property text does not fix the verdict (non-canonical key encodings; keys with a torsion component for which 'h' reduced mod L or not gives different answers) the model says 'unspecified' and the run does not judge. ~970 verifications per run; 2k runs quick, 120k thorough.",
         ref="DESIGN.md §4.9 and §10",
-        note="Trusted: the harness's integer Ed25519 model and the library's SHA-512 (a wrong hash is C01). Triples are sampled (catalogue enumerated per sample), so this is evidence, not proof, that verify accepts exactly the triples satisfying the equation. Non-canonical encodings of the PUBLIC KEY are recorded but not judged.",
+        note="Trusted: the harness's integer Ed25519 model and its own SHA-512 (FIPS 180-4; the verdict oracle does not use the library's hash). Triples are sampled (catalogue enumerated per sample), so this is evidence, not proof, that verify accepts exactly the triples satisfying the equation. Non-canonical encodings of the PUBLIC KEY are recorded but not judged.",
         technique=TECH + "; channel-fault catalogue enumerated per sampled signature; verdict oracle = independent RFC 8032 model (closed-form for forgery-hard alterations)",
     ),
     "C16": dict(
